@@ -101,12 +101,17 @@ CLASSES = [
     ("ns", "virtual class B { B(double x); void serialize() const; };"),
     ("ns", "template<T = {double, int}> class Tm { Tm(T t); T get() const; };"),
     ("deep::er", "class D { D(); };"),
+    ("ns", "template<T = {double}, U = {ns::Keep2}> class Pr { Pr(T t); enum Mode { M1, M2 }; U second(const This::Mode& m) const; };"),
+    ("ns", "class Mid { Mid(); double length() const; };"),
 ]
 OTHERS = {"": "double gfun(int a); class Keep { Keep(); void f() const; };",
-          "ns": "class Keep2 { Keep2(); ns::Keep2 again() const; }; enum Color { Red }; void nfun();",
+          "ns": "class Keep2 { Keep2(); ns::Keep2 again() const; }; enum Color { Red }; void nfun(); class Ser { Ser(); void serialize() const; };",
           "deep::er": "class Keep3 { Keep3(); };"}
-QUAL = {0: ["G"], 1: ["ns::A"], 2: ["ns::B"], 3: ["ns::Tm<double>", "ns::Tm<int>"], 4: ["deep::er::D"]}
-MQUAL = {0: ["G"], 1: ["ns::A"], 2: ["ns::B"], 3: ["ns::TmDouble", "ns::TmInt"], 4: ["deep::er::D"]}
+# a class with constructors only follows the slot of position 2 (so the chosen class sits between a serializable class and a method-less one)
+AFTER_NS = "class Bare { Bare(double d); static ns::Bare Create(); };"
+QUAL = {0: ["G"], 1: ["ns::A"], 2: ["ns::B"], 3: ["ns::Tm<double>", "ns::Tm<int>"], 4: ["deep::er::D"], 5: ["ns::Pr<double, ns::Keep2>"], 6: ["ns::Mid"]}
+MQUAL = {0: ["G"], 1: ["ns::A"], 2: ["ns::B"], 3: ["ns::TmDouble", "ns::TmInt"], 4: ["deep::er::D"], 5: ["ns::PrDoubleKeep2"], 6: ["ns::Mid"]}
+NCLS = len(CLASSES)
 
 
 def build(which, present, pos):
@@ -120,6 +125,7 @@ def build(which, present, pos):
             by_ns[ns].insert(0, decl)
         else:
             by_ns[ns].append(decl)
+    by_ns["ns"].append(AFTER_NS)
     out = by_ns[""][:]
     out.append("namespace ns { %s }" % " ".join(by_ns["ns"]))
     out.append("namespace deep { namespace er { %s } }" % " ".join(by_ns["deep::er"]))
@@ -181,12 +187,12 @@ def c15_locality(which: int, pos: int, boost: int) -> bool:
     """
     Ignoring a class == deleting its declaration (pybind: byte-identical; MATLAB: identical up to the consistent
     renumbering of gateway ids); every other entity's code is the same with and without the class.
-    pre: 0 <= which < 5 and 0 <= pos <= 1 and 0 <= boost <= 1
+    pre: 0 <= which < NCLS and 0 <= pos <= 1 and 0 <= boost <= 1
     pre: not (kf_open('C15-matlab-global') and which == 0)
     pre: not (kf_open('C15-ignored-enums') and which == 1)
     post: _
     """
-    which, pos, boost = pick(which, 0, 5), pick(pos, 0, 2), pick(boost, 0, 2)
+    which, pos, boost = pick(which, 0, NCLS), pick(pos, 0, 2), pick(boost, 0, 2)
     with concrete():
         ok = check_locality(which, pos, boost)
     reached({"class": CLASSES[which][1][:40], "pos": pos, "boost": boost})
@@ -201,6 +207,6 @@ def conds(tier):
         xh.Cond(M, "c15_entry_pybind", t(240, 1500), examples=["entry='G'", "entry='ns::A'", "entry='A'", "entry='ns::AB'", "entry=''"],
                 bounds="all ignore entries of length <= %d over {n,s,:,A,G,B}" % (6 if q else 7)),
         xh.Cond(M, "c15_entry_matlab", t(200, 900), kind="shape-bounded", examples=["e=1", "e=2", "e=3", "e=4"], bounds="%d ignore entries (exact, prefix, suffix, unqualified, ::-prefixed)" % len(ENTRIES)),
-        xh.Cond(M, "c15_locality", t(300, 900), kind="shape-bounded", path_timeout=90, examples=["which=0, pos=0, boost=0", "which=1, pos=1, boost=1", "which=3, pos=0, boost=0", "which=2, pos=1, boost=1"],
-                bounds="5 classes (global, namespaced with enum, virtual+serializable, template with 2 instantiations, nested namespace) x position x serialization"),
+        xh.Cond(M, "c15_locality", t(300, 900), kind="shape-bounded", path_timeout=90, examples=["which=0, pos=0, boost=0", "which=1, pos=1, boost=1", "which=3, pos=0, boost=0", "which=2, pos=1, boost=1", "which=5, pos=0, boost=0", "which=6, pos=1, boost=1"],
+                bounds="%d classes (global, namespaced with enum, virtual+serializable, template with 2 instantiations, nested namespace, 2-argument template with enum, plain class between a serializable and a method-less class) x position x serialization" % NCLS),
     ]
